@@ -57,12 +57,12 @@ ENGINES = {
         harness=['engines/containers.c'],
         sim=['sim/sim.c', 'sim/simalloc.c'],
         repo=['datastruct/elasticarray.c', 'datastruct/elasticqueue.c', 'datastruct/seqptrmap.c',
-              'datastruct/ptrheap.c', 'datastruct/timerqueue.c', 'util/warnp.c'],
+              'datastruct/ptrheap.c', 'datastruct/timerqueue.c', 'util/warnp.c', 'util/asprintf.c'],
         inc=['datastruct', 'util', '.'],
         wrap=ALLOC_WRAPS,
         libs=[],
         props=['C12', 'C13', 'C14'],
-        real='elasticarray.c elasticqueue.c seqptrmap.c ptrheap.c timerqueue.c mpool.h',
+        real='elasticarray.c elasticqueue.c seqptrmap.c ptrheap.c timerqueue.c mpool.h asprintf.c',
         stub='allocator policy (failure, moving realloc, refused shrink, fill pattern), atexit',
     ),
     'entropy': dict(
